@@ -22,4 +22,4 @@ package hash
 //@ func Hash
 //@   nopanic                                                        [C16]
 //@   pure allocates
-//@   site v2.Hash#0 requires arg0 == box(type(*ast.Task), t) && arg2 == nil     -- the WHOLE compiled task, its variables included: two calls with different variables are different executions   [C06,C01,C11]
+//@   site v2.Hash#0 requires arg0 == box(type(*ast.Task), t) && arg2 == nil     -- the WHOLE compiled task, its variables included: two calls with different variables are different executions; no options object (which the library writes into) is shared between concurrent calls   [C06,C01,C11,C18]
